@@ -352,7 +352,8 @@ def rule_makefeasible(chk, prog):
             bad = "the rejected constraint is not removed from the valid set"
         else:
             lp = [a for a in fn.ancestors(rest[0]) if a.get("k") == "ForStmt"]
-            if not lp or "priorPos.size()" not in norm(lp[0].get("cond")) or g.iteration_can_skip(lp[0], [rest[0]["id"]]) is not None:
+            if not lp or "priorPos.size()" not in norm(lp[0].get("cond")) or g.iteration_can_skip(lp[0], [rest[0]["id"]]) is not None \
+                    or not _from_zero(lp[0]):
                 bad = "not every variable's position is restored"
     (r.bad if bad else r.ok)("rollback of a failed attempt", fn.loc(rb) if rb else fn.where(), bad or "")
     # (d) save before each attempt
@@ -363,11 +364,17 @@ def rule_makefeasible(chk, prog):
         bad = "positions are not saved before an attempt"
     else:
         lp = [a for a in fn.ancestors(sv[0]) if a.get("k") == "ForStmt"]
-        if not lp or "priorPos.size()" not in norm(lp[0].get("cond")) or g.iteration_can_skip(lp[0], [sv[0]["id"]]) is not None:
+        if not lp or "priorPos.size()" not in norm(lp[0].get("cond")) or g.iteration_can_skip(lp[0], [sv[0]["id"]]) is not None \
+                or not _from_zero(lp[0]):
             bad = "not every variable's position is saved"
         elif alt_push and g.must_precede([x["id"] for x in walk(lp[0].get("init") or {}) if x.get("id") in g.pos][:1], alt_push[0]["id"]) is not None:
             bad = "an attempt can start without the positions having been saved"
     (r.bad if bad else r.ok)("positions saved before each attempt", fn.loc(sv[0]) if sv else fn.where(), bad or "")
+
+
+def _from_zero(loop):
+    ini = loop.get("init")
+    return ini is not None and ini.get("k") == "DeclStmt" and literal_value(ini["decls"][0].get("init")) == "0"
 
 
 def _drop(f):
